@@ -12,7 +12,7 @@ import numpy as np
 from .. import arrays as A
 from .. import gen_geom as gg
 from .. import oracle_geom as og
-from ..ctx import exc_in_repo, short_exc
+from ..ctx import exc_in_repo, scribble, short_exc
 
 RULE = ("cases = (kind, subtype, array, provenance form, accessor); arrays are built from "
         "unconstrained elements (missing at any position, every empty form, NaN/inf coordinates, "
@@ -111,6 +111,11 @@ def check_case(ctx, case, with_dask=False):
         ctx.sig(kind, subtype, form, "missing" if has_missing else "-",
                 "empty" if has_empty else "-", "n0" if not els else "n+")
         # ---- bounds ------------------------------------------------------------------
+        # (a caller may write into the arrays it was handed: the answers judged below come afterwards)
+        for g_ in (lambda: arr.bounds, lambda: arr.total_bounds, lambda: arr.total_bounds_x, lambda: arr.total_bounds_y):
+            ok, v_, tb = ctx.guarded(g_)
+            if ok:
+                ctx.count("caller_written_results", scribble(v_))
         ok, b, tb = ctx.guarded(lambda: arr.bounds)
         if not ok:
             rec_raise("bounds", b, tb, form)
